@@ -720,7 +720,7 @@ class CSSSerializer:
             for item in rule.seq:
                 type_, val = item.type, item.value
                 # PRE
-                if '}' == val and type_ not in ('STRING', 'URI'):
+                if '}' == val and 'CHAR' == type_:
                     # close last open item on stack
                     stackblock = stacks.pop().value()
                     if stackblock:
@@ -737,7 +737,7 @@ class CSSSerializer:
                     out.append(val, type_)
 
                 # POST
-                if '{' == val and type_ not in ('STRING', 'URI'):
+                if '{' == val and 'CHAR' == type_:
                     # new stack level
                     stacks.append(Out(self))
 
